@@ -440,3 +440,8 @@ func TestC10IndependentReaders(t *testing.T) {
 func TestC14IndependentReaders(t *testing.T) {
 	concurrentRounds(t, "C14", independentReaders, independentReadersNote)
 }
+
+// TestC16ConcurrentReaders: built arrays of every kind read by 8 goroutines at once.
+func TestC16ConcurrentReaders(t *testing.T) {
+	concurrentRounds(t, "C16", concurrentArrayReaders, "8 goroutines reading the same built arrays (typed, generic with the library's and with a configured encoder, reloaded twins) through Get and GetBytes; every answer is checked against the model")
+}
